@@ -88,10 +88,10 @@ class TransportSetup(Contract):
         n, lo, hi, k, d = self.ref(case, ctx)
         T = ctx['g'].get('T')
         v = ctx['vals']
-        linear_ok = S.or_(S.forall(n, lambda i: S.le(hi(i), 0)), S.forall(n, lambda i: S.ge(lo(i), 0)),
-                          S.forall(n, lambda i: S.eq(k(i), 0)))
         if outcome[0] == 'raise':
             if outcome[1] == 'NotImplementedError':
+                linear_ok = S.or_(S.forall(n, lambda i: S.le(hi(i), 0)), S.forall(n, lambda i: S.ge(lo(i), 0)),
+                                  S.forall(n, lambda i: S.eq(k(i), 0)))
                 yield ('C08.transport.refuses_only_sign_changing', S.not_(linear_ok))
             else:
                 # a cost series of length 1 is accepted as a scalar by the code; any other length must match the grid
@@ -111,7 +111,7 @@ class TransportSetup(Contract):
             yield ('C02.transport.cost', c)
             return
         yield ('C07.transport.lengths', S.eq(c.n, n))
-        yield ('C02.transport.cost', S.forall(n, lambda i: S.or_(
+        yield ('C17.costs_only.transport.equals_full_cost' if case['costs_only'] else 'C02.transport.cost', S.forall(n, lambda i: S.or_(
             S.and_(S.ge(lo(i), 0), S.eq(c.f(i), k(i) * d(i))),
             S.and_(S.le(hi(i), 0), S.eq(c.f(i), -k(i) * d(i))),
             S.and_(S.eq(k(i), 0), S.eq(c.f(i), 0)),
